@@ -326,6 +326,28 @@ func c01Gen(r *rand.Rand, tier string) []spec.Case {
 			}
 		}
 	}
+	// 2b. the last three fields interact with each other and with the configuration (protocol x allowed
+	// list x multiplexing x TLS mode): their full cross product for every configuration, all else valid
+	for _, a := range c01AllowedL {
+		for _, t := range c01TLSL {
+			for _, m := range []bool{false, true} {
+				for _, pr := range []string{"\x00absent", "netrpc", "grpc", "", "junk"} {
+					for _, ce := range []string{"\x00absent", "", c01Cert, "!!notbase64"} {
+						for _, mx := range []string{"\x00absent", "true", "false", "1", "nope"} {
+							if tier != "thorough" && r.Intn(2) == 0 {
+								continue
+							}
+							p := spec.C01Case{Allowed: a, Sets: pick(r, c01SetsL), TLS: t, Mux: m, TimeoutMs: 400}
+							f := c01ValidFor(r, &p)
+							f.proto, f.cert, f.mux = pr, ce, mx
+							p.Line, p.End = c01Wrapper(f.line(), "lf")
+							add("cross:proto-cert-mux", p)
+						}
+					}
+				}
+			}
+		}
+	}
 	// 3. wrappers around valid lines
 	for _, w := range c01Wrap {
 		for k := 0; k < reps; k++ {
